@@ -553,6 +553,7 @@ package bits
 //@   ensures r.err == nil && old(erInvW(r)) ==> erInvW(r)
 //@   ensures r.err == nil && old(erInv(r)) ==> erInv(r)
 //@   ensures old(r.err) == nil ==> ghost(r.rd).rpos >= old(ghost(r.rd).rpos) && ghost(r.rd).rlen == old(ghost(r.rd).rlen)
+//@   ensures old(r.err) == nil && r.err == nil ==> ghost(r.rd).rpos > old(ghost(r.rd).rpos) || r.n < old(r.n)
 //@   loop 1 invariant r != nil && r.rd == old(r.rd) && r.err == nil && erInv0(r) && old(erInv0(r)) && ghost(r.rd).rlen == old(ghost(r.rd).rlen) && ghost(r.rd).rpos >= old(ghost(r.rd).rpos) && (old(erInvW(r)) ==> erInvW(r)) && (old(erInv(r)) ==> erInv(r))
 //@   loop 1 invariant 0 <= leadingZeroBits && leadingZeroBits <= 8*(ghost(r.rd).rpos - old(ghost(r.rd).rpos)) + old(r.n) - r.n
 //@   loop 1 decreases ghost(r.rd).rlen - ghost(r.rd).rpos, r.n
@@ -563,6 +564,7 @@ package bits
 //@   ensures r.err == nil && old(erInvW(r)) ==> erInvW(r)
 //@   ensures r.err == nil && old(erInv(r)) ==> erInv(r)
 //@   ensures old(r.err) == nil ==> ghost(r.rd).rpos >= old(ghost(r.rd).rpos) && ghost(r.rd).rlen == old(ghost(r.rd).rlen)
+//@   ensures old(r.err) == nil && r.err == nil ==> ghost(r.rd).rpos > old(ghost(r.rd).rpos) || r.n < old(r.n)
 
 //@ func (*EBSPReader).SetError
 //@   requires r != nil
